@@ -144,6 +144,32 @@ func isRestorer(fn *ssa.Function) bool {
 	return ok
 }
 
+// isParamOrSpill: v is the parameter p, or a load of the local cell p was spilled into (a parameter captured by a
+// closure lives in such a cell).
+func isParamOrSpill(v ssa.Value, p *ssa.Parameter) bool {
+	if v == ssa.Value(p) {
+		return true
+	}
+	ld, ok := v.(*ssa.UnOp)
+	if !ok || ld.Op != token.MUL {
+		return false
+	}
+	al, ok := ld.X.(*ssa.Alloc)
+	if !ok {
+		return false
+	}
+	n := 0
+	for _, ref := range *al.Referrers() {
+		if st, isS := ref.(*ssa.Store); isS && st.Addr == ssa.Value(al) {
+			n++
+			if st.Val != ssa.Value(p) {
+				return false
+			}
+		}
+	}
+	return n > 0
+}
+
 func isTagInit(fn *ssa.Function) bool {
 	ok := false
 	allInstrs(fn, func(ins ssa.Instruction) {
@@ -173,13 +199,17 @@ func ruleR8_2(w *World, r *Report) {
 			switch x := ins.(type) {
 			case *ssa.Defer:
 				for _, c := range w.Callees[x] {
-					if isRestorer(c) && len(x.Call.Args) > 0 && x.Call.Args[0] == ssa.Value(fn.Params[0]) {
+					if isRestorer(c) && len(x.Call.Args) > 0 && isParamOrSpill(x.Call.Args[0], fn.Params[0]) {
+						deferred = true
+					}
+					// `defer func() { pb.Clauses = pb.Clauses[:pb.NbClauses] }()`: a closure of this function
+					if isRestorer(c) && c.Parent() == fn {
 						deferred = true
 					}
 				}
 			case *ssa.Call:
 				for _, c := range w.Callees[x] {
-					if isTagInit(c) && len(x.Call.Args) > 0 && x.Call.Args[0] == ssa.Value(fn.Params[0]) {
+					if isTagInit(c) && len(x.Call.Args) > 0 && isParamOrSpill(x.Call.Args[0], fn.Params[0]) {
 						inited = true
 					}
 					if c == rup && !(deferred && inited) {
@@ -474,7 +504,13 @@ func ruleR8_5(w *World, r *Report) {
 				if inLoop(fn, ci.Block()) {
 					loop = "per-line"
 				}
-				m[kind+" "+w.FuncName(c)+" "+loop] = true
+				name := w.FuncName(c)
+				if isRestorer(c) {
+					name = "(function cutting Clauses back to NbClauses)" // a method or an inlined closure
+				} else if c.Parent() != nil {
+					name = "(closure)"
+				}
+				m[kind+" "+name+" "+loop] = true
 			}
 		}
 		for _, gs := range growthSites(fn) {
